@@ -1,12 +1,14 @@
 //! One module per property.
 use crate::framework::Check;
+pub mod c01;
 pub mod c02;
 pub mod c03;
 pub mod c18;
+pub mod c20;
 pub mod common;
 
 pub fn all() -> Vec<Box<dyn Check>> {
-    vec![Box::new(c02::C02), Box::new(c03::C03), Box::new(c18::C18)]
+    vec![Box::new(c01::C01), Box::new(c02::C02), Box::new(c03::C03), Box::new(c18::C18), Box::new(c20::C20)]
 }
 
 pub fn by_id(id: &str) -> Option<Box<dyn Check>> {
